@@ -182,7 +182,7 @@ def runOps {V N} [Geo V N] [ShowV V] [ShowN N] (w dim3 sw : Bool) : Mesh V N →
     -- a mesh that has lost all its triangles is outside the explored domain of `scaled`: the operation is skipped
     if s.indices.isEmpty then ["emptysc"] :: runOps w dim3 sw s ops else
     -- `sw`: `scaled` as written (cached pseudo-normals scaled and normalised); otherwise with the fix (recomputed)
-    match (if sw then some (scaledW dim3 (ShowV.scaleAct xs) (ShowN.scaleN xs) s) else scaled dim3 (ShowV.scaleAct xs) s) with
+    match (if sw then some (scaledW dim3 (ShowV.scaleAct xs) (ShowN.scaleN xs) s) else scaled dim3 (mirrorOf xs) (ShowV.scaleAct xs) s) with
     | none => [["panic"]]
     | some s' => showState w dim3 s' :: runOps w dim3 sw s' ops
 
@@ -545,7 +545,7 @@ def finalState {V N} [Geo V N] [ShowV V] [ShowN N] (dim3 : Bool) (m : RawMesh V)
         | .ok rhs => append dim3 s rhs
         | _ => some s
       | .tv xs => transformVertices (ShowV.isoAct xs) (ShowN.isoRot xs) s
-      | .sc xs => if s.indices.isEmpty then some s else scaled dim3 (ShowV.scaleAct xs) s) s
+      | .sc xs => if s.indices.isEmpty then some s else scaled dim3 (mirrorOf xs) (ShowV.scaleAct xs) s) s
   | _ => none
 
 inductive Hit where
@@ -996,6 +996,96 @@ def boxscaleOracle (dim : Nat) (a : List Float) (o : List String) : String :=
     | some k => s!"fail axis {k}: the scaled box is not the bounding interval of the scaled vertices"
     | none => "pass"
 
+/-! ## `tnc3`: `TriMesh::triangle_normal_constraints(i)` for every triangle of the final mesh of a history
+
+Output (harness and model): `V nv coords I ni idx F flags N { - | panic | face e0 e1 e2 (12 floats) }*ni` | `nobuild`. -/
+
+def tncShow (s : Mesh (V3 Float) (V3 Float)) : String :=
+  let head := ["V", toString s.vertices.length] ++ s.vertices.flatMap ShowV.showV ++
+    ["I", toString s.indices.length] ++ s.indices.flatMap (fun t => [toString t.a, toString t.b, toString t.c]) ++
+    ["F", toString s.flags.toNat, "N"]
+  let ents := (List.range s.indices.length).flatMap fun i =>
+    match triangleNormalConstraints s i with
+    | .panic => ["panic"]
+    | .ret none => ["-"]
+    | .ret (some r) => [fv3 r.face, fv3 r.e0, fv3 r.e1, fv3 r.e2]
+  " ".intercalate (head ++ ents)
+
+def ptncOut : P (List (V3 Float) × List Tri × Nat × List (Option (List Float))) := do
+  expect "V"; let nv ← pnat; let coords ← rep (rep pfo 3) nv
+  expect "I"; let idx ← plist ptri
+  expect "F"; let f ← pnat
+  expect "N"
+  let ents ← rep (poptDash (rep pfo 12)) idx.length
+  pend
+  pure (coords.map (fun c => (⟨c.getD 0 0, c.getD 1 0, c.getD 2 0⟩ : V3 Float)), idx, f, ents)
+
+/-- approximate square root of a non-negative rational (relative error about `1e-16`) -/
+def rsqrt (x : Rat) : Rat := q (Float.sqrt (ratToFloat x))
+
+/-- the oracle of `tnc3`, from the buffers and flags the implementation printed (independent of the model's accumulation):
+* without `FIX_INTERNAL_EDGES` (bit 7 and `MERGE_DUPLICATE_VERTICES`) every answer is `None`;
+* with it, for triangle `i = (a, b, c)`: `face` is the unit vector along `(b - a) x (c - a)`; `edges[k]` is the unit vector
+  along the sum of the unit normals of ALL triangles (having a normal) that contain the undirected edge
+  `{idx[k], idx[(k+1)%3]}`; `None` exactly when the triangle has no normal (norm <= f64::EPSILON) or one of the three sums
+  is not longer than `1e-6`.  Thresholds are judged with a relative margin of `1e-6`, values with `1e-9` (`1e-13 / |sum|`
+  added for the cancellation in short sums). -/
+def tncOracle (o : List String) : String :=
+  if o = ["nobuild"] then "skip nobuild" else
+  if o.contains "panic" then "fail triangle_normal_constraints panicked" else
+  match run ptncOut o with
+  | none => "fail unparsable-output"
+  | some (vsF, idx, f, ents) =>
+    let fl := Flags.ofNat f
+    if !(fl.fix7 && fl.merge) then
+      (if ents.all Option.isNone then (if ents.isEmpty then "skip no-triangle" else "pass")
+       else "fail constraints returned without FIX_INTERNAL_EDGES")
+    else
+    let vs := vsF.map q3
+    match allCoords vs idx with
+    | none => "skip index-out-of-bounds"
+    | some cs =>
+      let eps2 : Rat := (1 / 4503599627370496) * (1 / 4503599627370496)
+      let mrg : Rat := 1 / 1000000
+      let nrm := cs.map fun c => (c.2.1.sub c.1).cross (c.2.2.sub c.1)
+      let sqs := nrm.map fun n => n.dot n
+      if sqs.any (fun x => eps2 * (1 - mrg) ≤ x && x ≤ eps2 * (1 + mrg)) then "skip normal-at-threshold" else
+      let units : List (Option (V3 Rat)) := (nrm.zip sqs).map fun (n, x) => if x > eps2 then some (n.sdiv (rsqrt x)) else none
+      let key (a b : Nat) : Nat × Nat := if a ≤ b then (a, b) else (b, a)
+      let has (t : Tri) (k : Nat × Nat) : Bool := key t.a t.b == k || key t.a t.c == k || key t.b t.c == k
+      let esum (k : Nat × Nat) : V3 Rat := (idx.zip units).foldl (fun acc (t, u) => match u with
+        | some u => if has t k then acc.add u else acc
+        | none => acc) ⟨0, 0, 0⟩
+      let close (x y tol : Rat) : Bool := rabs (x - y) ≤ tol
+      let closeV (u v : V3 Rat) (tol : Rat) : Bool := close u.x v.x tol && close u.y v.y tol && close u.z v.z tol
+      let res : List (Option String) := (List.range idx.length).map fun i =>
+        match idx[i]?, units[i]?, ents[i]? with
+        | some t, some u, some ent =>
+          let sums := [esum (key t.a t.b), esum (key t.b t.c), esum (key t.c t.a)]
+          let lens := sums.map fun e => e.dot e
+          let lim : Rat := 1 / 1000000000000
+          match ent with
+          | none =>
+            if u.isNone || lens.any (fun l => l ≤ lim * (1 + mrg)) then none
+            else some s!"triangle {i}: None although the triangle has a normal and the three edge sums are longer than 1e-6"
+          | some xs =>
+            match u with
+            | none => some s!"triangle {i}: constraints returned for a triangle without normal"
+            | some u =>
+              if lens.any (fun l => l ≤ lim * (1 - mrg)) then some s!"triangle {i}: constraints returned with an edge sum not longer than 1e-6" else
+              let g (k : Nat) : V3 Rat := ⟨q (xs.getD (3 * k) 0), q (xs.getD (3 * k + 1) 0), q (xs.getD (3 * k + 2) 0)⟩
+              if !closeV (g 0) u tolDefault then some s!"triangle {i}: face is not the unit normal of the triangle" else
+              match (List.range 3).find? (fun k =>
+                  let e := sums.getD k ⟨0, 0, 0⟩
+                  let l := rsqrt (e.dot e)
+                  !closeV (g (k + 1)) (e.sdiv l) (tolDefault + (1 / 10000000000000) / l)) with
+              | some k => some s!"triangle {i}: edges[{k}] is not the normalised sum of the normals of the triangles around the edge"
+              | none => none
+        | _, _, _ => some s!"triangle {i}: missing entry"
+      match res.find? Option.isSome with
+      | some (some e) => s!"fail {e}"
+      | _ => if ents.isEmpty then "skip no-triangle" else "pass"
+
 def handler (fn : String) : Option Handler :=
   match fn with
   | "bvhq3" => some (bvhqHandler (N := V3 Float) pv3 3 true)
@@ -1051,7 +1141,7 @@ def handler (fn : String) : Option Handler :=
         | some (m, ops, pts) =>
           if o = ["nobuild"] then "skip nobuild" else
           if o.length != pts.length then "fail unparsable-output" else
-          -- the histories keep the surface and its orientation, except `sc` (orientation-preserving scales only), which is
+          -- the histories keep the surface and its orientation; `sc` (any sign pattern: `scaled` rewinds ORIENTED meshes) is
           -- applied here in exact arithmetic
           let scaleOf (p : V3 Rat) : V3 Rat := ops.foldl (fun p op => match op with
             | .sc xs => (⟨p.x * q (xs.getD 0 1), p.y * q (xs.getD 1 1), p.z * q (xs.getD 2 1)⟩ : V3 Rat)
@@ -1068,6 +1158,14 @@ def handler (fn : String) : Option Handler :=
           match res.findIdx? (· == 2) with
           | some k => s!"fail point {k} contains_local_point disagrees with the crossing parity"
           | none => if res.any (· == 1) then "pass" else "skip all-points-near-surface" }
+  | "tnc3" => some {
+      model := fun a => (run (pcase pv3) a).map fun (m, ops) =>
+        match finalState (N := V3 Float) true m ops with
+        | none => "nobuild"
+        | some s => tncShow s
+      oracle := fun a o => match run (pcase pv3) a with
+        | some _ => tncOracle o
+        | none => "skip bad-args" }
   | "pnsign3" => some {
       model := fun a => (run ppnsign a).map fun (m, ops, its) =>
         match finalState (N := V3 Float) true m ops with
